@@ -75,9 +75,8 @@ def map_history(h, sid):
     return steps
 
 
-def blind_session(rng, W, N, length, two):
+def blind_session(rng, W, N, length, streams):
     """random session, no model behind it"""
-    streams = ["d1", "d2"] if two else ["d1"]
     st = {d: {"sent": 0, "ann": False, "reg": False, "dlv": 0, "last": 0} for d in streams}
     maxsent = min(2 * W + 2 * N + 3, 12) if W <= 4 else 10
     steps = []
@@ -160,7 +159,7 @@ def gen_scripts(ctx):
         nid[0] += 1
     # (i) TLC: phased histories of GenRatchet with push actions
     plans = [(1, 1, 2, 4, 36), (2, 2, 3, 3, 36)] if quick else \
-            [(1, 1, 3, 5, 400), (2, 1, 3, 5, 400), (2, 2, 4, 4, 400), (3, 2, 4, 4, 300), (1, 2, 3, 5, 200)]
+            [(1, 1, 3, 4, 120), (2, 1, 3, 4, 120), (2, 2, 3, 4, 120), (3, 2, 4, 3, 100), (1, 2, 3, 4, 100)]
     jobs = []
     for (W, N, ms, ml, lim) in plans:
         jobs.append(lambda W=W, N=N, ms=ms, ml=ml: ctx.tlc(
@@ -181,8 +180,9 @@ def gen_scripts(ctx):
     # (ii) model-independent sessions
     cfgs = [(1, 1), (2, 1), (2, 2), (3, 2), (100, 100)] if quick else [(1, 1), (2, 1), (1, 2), (2, 2), (3, 2), (4, 3), (100, 100)]
     for (W, N) in cfgs:
-        for j in range(9 if quick else 150):
-            add(W, N, blind_session(ctx.rng, W, N, ctx.rng.choice([14, 20, 28]), two=(j % 3 == 2)), "blind")
+        for j in range(9 if quick else 66):
+            # one sender, two senders in one group, one sender in two groups shared with the receiver
+            add(W, N, blind_session(ctx.rng, W, N, ctx.rng.choice([14, 20, 28]), [["d1"], ["d1", "e1"], ["d1", "d2"]][j % 3]), "blind")
     # (iii) malformed requests
     for (W, N) in ([(2, 2), (100, 100)] if quick else cfgs):
         for via in VIAS if not quick else ["svc", "off"]:
